@@ -12,17 +12,23 @@ TRUSTED BASE (this text is quoted in DESIGN.md).  Trusted is exactly: Python's `
 the definitions of Gen/ConvGenBase.v (dict operations, number arithmetic, the regex subset, the CONSTRUCTOR TABLE `ctor`, the
 line/string primitives), the SPECS (which functions, the types of their parameters) and the Coq kernel.
 
-Translated (SPECS):
-  converters/bmad.py      convert_element                     -> gen_bmad_convert_element
-  converters/elegant.py   convert_element                     -> gen_elegant_convert_element
+Translated (SPECS, in this order):
   converters/utils/fortran_namelist.py
                           validate_understood_properties      -> gen_validate_understood_properties
-                          merge_delimiter_continued_lines     -> gen_merge_delimiter_continued_lines
-                          read_clean_lines (the cleaning passes; the `call, file =` inclusion loop is an opaque primitive)
-                                                              -> gen_read_clean_lines
-  converters/bmad.py / elegant.py   convert_lattice_to_cheetah: the three merge passes and their order -> gen_{bmad,elegant}_merge_passes
-  latticejson.py          convert_segment, parse_segment, save_cheetah_model (document layout), load_cheetah_model
-                                                              -> gen_convert_segment, gen_parse_segment, gen_save_document, gen_load
+  converters/bmad.py      convert_element                     -> gen_bmad_convert_element + one definition per branch of the
+                                                                 element-type dispatch (gen_bmad_convert_element__<type>, __otherwise)
+  converters/elegant.py   convert_element                     -> gen_elegant_convert_element (+ gen_elegant_convert_element__<types>)
+  converters/bmad.py / elegant.py   convert_lattice_to_cheetah: the three merge passes, their order, delimiters and flags, that
+                          the first reads `lines = read_clean_lines(..)` and parse_lines gets the last -> gen_{bmad,elegant}_merge_passes
+  converters/utils/fortran_namelist.py  (PINS, not translations)
+                          define_element: the regex literal   -> gen_define_element_pattern : string
+                          merge_delimiter_continued_lines: sha256 of the normalised AST -> gen_merge_delimiter_continued_lines_ast_sha256
+  latticejson.py          convert_element, convert_segment, parse_element, parse_segment
+                                                              -> gen_lj_convert_element, gen_lj_convert_segment, gen_lj_parse_element,
+                                                                 gen_lj_parse_segment (a Section generic in the value layer)
+NOT translated (stay tested-only, as C13 / C14 declare): read_clean_lines, evaluate_expression, assign_property, assign_variable,
+  define_element beyond its pattern, define_line, define_overlay, parse_use_line, parse_lines, resolve_object_name_wildcard (regex,
+  `eval`, file access); save_cheetah_model / load_cheetah_model (document layout, json text layer); converters/nxtables.py.
 
 READING.
   * Numbers: a Python float/int of a parsed lattice file is one binary64 value (`float` of Coq's PrimFloat; ints below 2^53
@@ -65,10 +71,28 @@ CONSTRUCT TABLE (statements).
     for / while                       only the loop shapes listed with the functions that use them (see LOOPS below)
     anything else                     TranslateError
 
-NOT covered: float32 arithmetic inside cheetah's constructors beyond the ctor table; which exception is raised; `print`
-output; dtype other than the default; the regex/`eval` front end (evaluate_expression, assign_property, define_element ..:
-tested only, as declared by C13) - regex matching, `eval`, file access, `str.strip/lower/endswith`, `re.sub` are opaque
-primitives whose meaning is the model's; the JSON text layer (json.dumps / json.load, CompactJSONEncoder).
+  LatticeJSON reading: an Element object is Json.v's `tree P` (leaf: name + payload; Segment: name + elements);
+    isinstance(x, cheetah.Segment) -> is_segment x; x.elements -> seg_elements x (None on a leaf); x.name -> tname x; in the else
+    branch of the isinstance test x is a leaf whose attributes are read through leaf_payload: element.__class__.__name__ ->
+    class_name p, element.defining_features -> defining_features p, getattr(element, f) -> getattr_ p f (Section variables, like
+    feature2nontorch, nontorch2feature, the entry [class, params] = mk_entry / entry_class / entry_params, getattr(cheetah, c) =
+    cheetah_class c, element_class(name=name, **params) = construct).  Dicts that are written and merged are Json.v's association
+    lists (newest first): {} -> [], d[k] = v -> dict_set, d.update(e) -> dict_update, d[k] -> lookup (KeyError = None), k in d ->
+    dict_has; {k: e for k in l if c} -> dict_of_items (map .. (filter .. l)); {k: f(v) for k, v in d.items()} -> map.
+    lattice_dict["elements"] / ["lattices"] of the loaded document -> the two tables E / LL (lattice_dict must be passed on unchanged).
+    LOOPS: `for x in xs: body` -> foldM over the tuple of the local variables (bound before the loop) that the body assigns or
+    mutates (.append, .update, item assignment); `if c: A else: B; rest` duplicates rest into both branches (join).  The recursive
+    call is the parameter `rec` (open recursion): the lemmas instantiate it with Json.v's conv / parse at the smaller fuel.
+
+NOT covered: float32 arithmetic inside cheetah's constructors beyond the ctor table; which exception is raised; `print` output; dtype
+other than the default; evaluation of the assertion message of validate_understood_properties; the regex / `eval` / file front end
+(see NOT translated; re.fullmatch of the validation lists is the subset matcher of ConvGenBase, checked to be the model's string
+equality on plain patterns and [ematrix_key] on the two ematrix patterns); the JSON text layer (json.dumps / json.load,
+CompactJSONEncoder); feature2nontorch / nontorch2feature and the class table (C14's regenerated class-table obligations).
+Statements of the lemmas (Gen/ConvGenEquiv.v): per branch `gen_<dialect>_convert_element__<type> name ps = <model> name "<type>" ps`
+for ALL ps (ematrix: under [ematrix_entries_numeric], the code and the model read the 42 entries in different orders); the dispatch
+and the whole step `gen_*_convert_element (expand_v .. f ..) c name = expand_v .. (S f) .. c name` under [type_not_number] (a numeric
+"element_type" is a modelling error of LatticeLang.v: the code falls through to the Drift fallback, [convert_v] says None).
 """
 import ast
 import hashlib
